@@ -33,6 +33,7 @@ def c01(run):
         g.fsk_rx(q(run, 30, 300))
         g.attach()
         g.faults(q(run, 20, 200))
+        g.mixed(q(run, 40, 600))
     return C.execute(run, gen, monitor=M.mon_flags)
 
 def c02(run):
@@ -40,7 +41,7 @@ def c02(run):
     def gen(g):
         g.two_byte()
         g.hist(q(run, 300, 4000), (5, 70))
-        g.lora_rx(q(run, 20, 200)); g.lora_tx(q(run, 20, 200)); g.fsk_rx(q(run, 20, 200)); g.fsk_tx(q(run, 20, 200))
+        g.lora_rx(q(run, 20, 200)); g.lora_tx(q(run, 20, 200)); g.fsk_rx(q(run, 20, 200)); g.fsk_tx(q(run, 20, 200)); g.mixed(q(run, 40, 600))
         g.exh_setters(q(run, [0x00, 0xff], [0, 0xff, 0xaa, 0x55]))
     divs = C.execute(run, gen, strip_faults=True)
     impl_c = run.impl
@@ -97,30 +98,30 @@ def lockstep(run, script, a, aab, b, bab):
 
 def c03(run):
     def gen(g):
-        g.fsk_rx(q(run, 400, 6000)); g.nocb(q(run, 40, 600))
+        g.fsk_rx(q(run, 400, 6000)); g.nocb(q(run, 40, 600)); g.mixed(q(run, 80, 1200))
     return C.execute(run, gen, monitor=chain(M.mon_expect, M.mon_ack), cone={'irq'})
 
 def c04(run):
     def gen(g):
-        g.fsk_tx(q(run, 300, 4000)); g.nocb(q(run, 40, 600))
+        g.fsk_tx(q(run, 300, 4000)); g.nocb(q(run, 40, 600)); g.mixed(q(run, 80, 1200))
     return C.execute(run, gen, monitor=M.mon_expect,
                      cone={'irq', 'fsk_ook_tx_set_for_transmission', 'fsk_ook_tx_set_for_transmission_with_address'})
 
 def c05(run):
     def gen(g):
-        g.lora_rx(q(run, 400, 5000)); g.nocb(q(run, 40, 600))
+        g.lora_rx(q(run, 400, 5000)); g.nocb(q(run, 40, 600)); g.mixed(q(run, 80, 1200))
     return C.execute(run, gen, monitor=M.mon_expect, cone={'irq', 'lora_set_implicit_header'})
 
 def c06(run):
     def gen(g):
-        g.lora_tx(q(run, 300, 4000)); g.nocb(q(run, 40, 600))
+        g.lora_tx(q(run, 300, 4000)); g.nocb(q(run, 40, 600)); g.mixed(q(run, 80, 1200))
     return C.execute(run, gen, monitor=M.mon_expect, cone={'irq', 'lora_tx_set_for_transmission', 'lora_reset_fifo'})
 
 def c07(run):
     def gen(g):
         g.lora_race(q(run, 150, 2000))
         g.lora_rx(q(run, 100, 1500)); g.lora_tx(q(run, 100, 1500)); g.hop(q(run, 60, 600))
-        g.fsk_rx(q(run, 100, 1500)); g.fsk_tx(q(run, 100, 1500)); g.hist(q(run, 100, 1500)); g.nocb(q(run, 40, 600))
+        g.fsk_rx(q(run, 100, 1500)); g.fsk_tx(q(run, 100, 1500)); g.hist(q(run, 100, 1500)); g.nocb(q(run, 40, 600)); g.mixed(q(run, 60, 800))
     return C.execute(run, gen, monitor=chain(M.mon_ack, M.mon_expect), cone={'irq'})
 
 def c08(run):
